@@ -646,7 +646,7 @@ func (p *Parser) typeSpec() (Type, *ParseError) {
 			var size Expr
 			if p.match(TokenComma) {
 				// Trailing comma without size: array<u32,>
-				if !p.check(TokenGreater) {
+				if !p.atTemplateClose() {
 					// Parse a template argument expression for size.
 					// This uses templateArgExpr which handles shift/arithmetic but
 					// stops before > or >= to avoid consuming the template closing >.
@@ -737,10 +737,11 @@ func (p *Parser) typeSpec() (Type, *ParseError) {
 		if p.match(TokenComma) {
 			if p.check(TokenIdent) {
 				accessMode = p.advance().Lexeme
+				p.match(TokenComma) // trailing comma: ptr<storage, u32, read_write,>
 			}
 		}
 
-		if err := p.expectErr(TokenGreater); err != nil {
+		if err := p.expectTemplateClose(); err != nil {
 			return nil, err
 		}
 
@@ -766,7 +767,7 @@ func (p *Parser) typeSpec() (Type, *ParseError) {
 
 		// Check for generic parameters: vec3<f32>
 		if p.match(TokenLess) {
-			for !p.check(TokenGreater) && !p.isAtEnd() {
+			for !p.atTemplateClose() && !p.isAtEnd() {
 				paramType, err := p.typeSpec()
 				if err != nil {
 					return nil, err
@@ -777,7 +778,7 @@ func (p *Parser) typeSpec() (Type, *ParseError) {
 					break
 				}
 			}
-			if err := p.expectErr(TokenGreater); err != nil {
+			if err := p.expectTemplateClose(); err != nil {
 				return nil, err
 			}
 		}
@@ -1837,6 +1838,13 @@ func (p *Parser) expectErr(kind TokenKind) *ParseError {
 		Message: fmt.Sprintf("expected %s, got %s", kind, p.peek().Kind),
 		Token:   p.peek(),
 	}
+}
+
+// atTemplateClose reports whether the next token closes a template argument list:
+// > or one of the tokens expectTemplateClose splits (>>, >=, >>=).
+func (p *Parser) atTemplateClose() bool {
+	return p.check(TokenGreater) || p.check(TokenGreaterGreater) ||
+		p.check(TokenGreaterEqual) || p.check(TokenGreaterGreaterEqual)
 }
 
 // expectTemplateClose expects a > token to close a template argument list.
